@@ -19,8 +19,11 @@ lean/Clikit/Gen, so the translator of any checkout (e.g. the one before a change
   tools/gen_robustness.py --benign          the behaviour-preserving rewrites (seeded-benign/*/patch.diff and
                                             seeded-benign/translator/*.diff): a `changed` outcome is an error (exit 1)
   tools/gen_robustness.py --seeded          the stored seeded changes (seeded/*/patch.diff)
-  tools/gen_robustness.py --table BEFORE.json AFTER.json    markdown before/after table; exit 1 if a change that
-                                            was visible before (changed/broken) is `unchanged` after
+  tools/gen_robustness.py --probes          seeded-benign/translator/half-read-probes/*.diff: behaviour-changing edits in
+                                            statements a reader might skip; `unchanged` is an error (exit 1)
+  tools/gen_robustness.py --table BEFORE.json AFTER.json    markdown before/after table; exit 1 if a seeded change that
+                                            was visible before (changed/broken) is `unchanged` after, or if a
+                                            behaviour-preserving rewrite (benign/..., translator/...) has a changed definition
 """
 import concurrent.futures
 import glob
@@ -140,7 +143,16 @@ def table(before, after):
         b = before.get(k, {}).get("outcome", "-")
         a = after.get(k, {}).get("outcome", "-")
         note = ""
-        if b not in ("unchanged", "-", "patch-failed") and a == "unchanged":
+        if k.startswith(("benign/", "translator/")):
+            # a behaviour-preserving rewrite: identical definitions are the best answer, a changed definition is wrong
+            if a.startswith("changed"):
+                note = "FALSE CHANGE"
+                lost.append(k)
+            elif a == "unchanged" and b != "unchanged":
+                note = "now read through" if not b.startswith("changed") else "now read through (was a false change)"
+            elif b != a:
+                note = "differs"
+        elif b not in ("unchanged", "-", "patch-failed") and a == "unchanged":
             note = "LOST"
             lost.append(k)
         elif b != a:
@@ -164,6 +176,9 @@ def main(argv):
             mode = "benign"
             patches += sorted(glob.glob(os.path.join(ROOT, "seeded-benign", "*", "patch.diff")), key=natural)
             patches += sorted(glob.glob(os.path.join(ROOT, "seeded-benign", "translator", "*.diff")), key=natural)
+        elif a == "--probes":
+            mode = "probes"
+            patches += sorted(glob.glob(os.path.join(ROOT, "seeded-benign", "translator", "half-read-probes", "*.diff")), key=natural)
         elif a == "--seeded":
             patches += sorted(glob.glob(os.path.join(ROOT, "seeded", "*", "patch.diff")), key=natural)
         elif a == "--table":
@@ -174,7 +189,8 @@ def main(argv):
             text, lost = table(before, after)
             sys.stdout.write(text)
             if lost:
-                sys.stdout.write("\nLOST (visible before, invisible after): %s\n" % " ".join(lost))
+                sys.stdout.write("\nNOT OK (a seeded change visible before and invisible after / a rewrite with a changed "
+                                 "definition): %s\n" % " ".join(lost))
             return 1 if lost else 0
         else:
             patches.append(a)
@@ -191,7 +207,7 @@ def main(argv):
         with open(out_json, "w") as f:
             json.dump(res, f, indent=1, sort_keys=True)
     bad = [k for k, r in res.items() if r["outcome"] in ("error", "patch-failed", "BROKEN-TIE")
-           or (mode == "benign" and r.get("changed"))]
+           or (mode == "benign" and r.get("changed")) or (mode == "probes" and r["outcome"] == "unchanged")]
     if bad:
         print("NOT OK: %s" % " ".join(sorted(bad, key=natural)))
     return 1 if bad else 0
